@@ -1,6 +1,7 @@
 import LinfaSpec.Model.Proto
 import LinfaSpec.Model.Scalar
 import LinfaSpec.Model.Vectorizer
+import Std.Data.HashMap
 
 namespace LinfaSpec.Drv.C17
 open LinfaSpec.Proto LinfaSpec.Vectorizer
@@ -20,9 +21,9 @@ def argDocs (toks : List String) (key : String) : Option (List (List String)) :=
 def argWords (toks : List String) (key : String) : Option (List String) :=
   (arg toks key).bind (parseList parseWord)
 
-/-- `stop=none` or `stop=S:<words>` -/
-def argStop (toks : List String) : Option (Option (List String)) := do
-  let s ← arg toks "stop"
+/-- `stop=none` or `stop=S:<words>` (same for `stopn`) -/
+def argStop (toks : List String) (key : String := "stop") : Option (Option (List String)) := do
+  let s ← arg toks key
   if s == "none" then some none
   else if s.startsWith "S:" then (parseList parseWord (s.drop 2).toString).map some
   else none
@@ -41,6 +42,10 @@ def argMethod (toks : List String) : Option Method := do
 def argF32 (toks : List String) (key : String) : Option Float32 :=
   (arg toks key).bind fun s => if s.length = 8 then parseF32 s else none
 
+def argBool (toks : List String) (key : String) : Option Bool := do
+  let s ← arg toks key
+  if s == "1" then some true else if s == "0" then some false else none
+
 /-- canonical enumeration of the hash map: by word (the harness sorts the
 implementation's vocabulary the same way and permutes the columns accordingly) -/
 def byWord (l : List (Entry String)) : List (Entry String) :=
@@ -48,26 +53,37 @@ def byWord (l : List (Entry String)) : List (Entry String) :=
 
 def showVocab (v : List String) : String := if v.isEmpty then "-" else showList showWord v
 
-/-- the calling forms of `fit` the harness drives; every one of them reaches the same Rust function
-body, so the model is the same — an unknown form is an ill-formed request -/
-def fitForms : List String :=
-  ["owned", "view", "strided", "reversed", "strref", "display", "checked", "files"]
-/-- the calling forms of `transform` -/
-def trForms : List String :=
-  ["owned", "view", "strided", "reversed", "strref", "display", "serde", "files"]
+/-- how a request's calling form of `fit` is answered -/
+inductive FitRoute | direct | files | reuse
 
-def argForm (toks : List String) (key : String) (known : List String) : Option Unit := do
-  let s ← arg toks key
-  if known.contains s then some () else none
+/-- the calling forms of `fit` the harness drives.  Array layouts / element types / checked parameters
+reach the body of `fit` (`fitDocs`); the `files…` forms reach the separate loop of `fit_files`
+(`fitFiles`, every file decodable); `reuse` is a parameter object with a history (`TokParams`). -/
+def fitRoute (s : String) : Option FitRoute :=
+  if ["owned", "view", "strided", "reversed", "revstrided", "strref", "display", "checked"].contains s then some .direct
+  else if ["files", "files16", "fileslatin1", "filesrep", "filesign"].contains s then some .files
+  else if s == "reuse" then some .reuse
+  else none
+
+/-- the calling forms of `transform`: `true` = the separate loop of `transform_files` -/
+def trRoute (s : String) : Option Bool :=
+  if ["owned", "view", "strided", "reversed", "revstrided", "strref", "display", "serde", "twice"].contains s then some false
+  else if ["files", "files16", "fileslatin1", "filesrep", "filesign"].contains s then some true
+  else none
+
+def vocForms : List String := ["owned", "strref", "display", "checked"]
 
 structure Req where
   nmin : Nat
   nmax : Nat
   fitted : Fitted String
-  /-- `false`: the outcome hangs on a decision the statement leaves open (a relative bound within
-  f32 noise of a document frequency, or a feature cap cutting through entries of equal
-  document frequency) -/
-  decided : Bool
+  /-- the entries the statement promises nothing about (left out of the response); `none`: the whole
+  vocabulary is open (a feature cap together with such an entry) -/
+  mask : Option (List String)
+  capped : Bool
+  /-- the fitted object tokenises with the parameter object's FIRST tokeniser (never, unless the
+  model of `check_ref` kept a stale cache) -/
+  alt : Bool
 
 def hexOne : String := "3ff0000000000000"
 def hexZero : String := "0000000000000000"
@@ -80,66 +96,154 @@ def floatTie (bound : Float32) (n df : Nat) : Bool :=
   let d := df.toFloat
   p != d && (p - d).abs <= 4e-6 * (if d < 1.0 then 1.0 else d)
 
+/-- per distinct value `v` of `vals`: how many are `≥ v`, how many `> v` -/
+def rankTable (vals : List Nat) : List (Nat × Nat × Nat) :=
+  vals.eraseDups.map fun v => (v, vals.countP (fun x => decide (x ≥ v)), vals.countP (fun x => decide (x > v)))
+
+def rankOf (t : List (Nat × Nat × Nat)) (v : Nat) : Nat × Nat :=
+  ((t.find? fun r => r.1 == v).map (·.2)).getD (0, 0)
+
+/-- The entries of the training corpus the statement promises nothing about (same computation as the
+harness's `unpromised`): float ties of a relative bound, entries equal to a *normalised* stop word,
+and under a feature cap the admitted entries that are neither surely kept nor surely dropped under
+both readings of "most frequent" (document frequency, term frequency). -/
+def unpromised (lo hi : Float32) (n : Nat) (stop stopn : List String) (cap : Option Nat)
+    (corpus : List (Entry String)) (tfOf : String → Nat) (a b : Nat) : Option (List String) :=
+  let u0 := (corpus.filter fun e =>
+    floatTie lo n e.2.2 || floatTie hi n e.2.2 || (!stop.contains e.1 && stopn.contains e.1)).map (·.1)
+  match cap with
+  | none => some u0
+  | some m =>
+    if !u0.isEmpty then none
+    else
+      let adm := corpus.filter fun e => !stop.contains e.1 && decide (a ≤ e.2.2) && decide (e.2.2 ≤ b)
+      let tdf := rankTable (adm.map (·.2.2))
+      let ttf := rankTable (adm.map fun e => tfOf e.1)
+      some ((adm.filter fun e =>
+        let r1 := rankOf tdf e.2.2
+        let r2 := rankOf ttf (tfOf e.1)
+        let kept := decide (r1.1 - 1 < m) && decide (r2.1 - 1 < m)
+        let dropped := decide (r1.2 ≥ m) && decide (r2.2 ≥ m)
+        !kept && !dropped).map (·.1))
+
+def tfTable (grams : List (List String)) : Std.HashMap String Nat :=
+  grams.foldl (fun m d => d.foldl (fun m g => m.insert g (m.getD g 0 + 1)) m) {}
+
 /-- settings + training corpus → fitted vectoriser, or the error kind -/
 def doFit (toks : List String) : Option (Except String Req) := do
   let nmin ← argNat toks "nmin"; let nmax ← argNat toks "nmax"
   let lo ← argF32 toks "lo"; let hi ← argF32 toks "hi"
-  let stop ← argStop toks; let cap ← argCap toks
-  let docs ← argDocs toks "fit"
-  argForm toks "ffit" fitForms
+  let stop ← argStop toks; let stopn ← argStop toks "stopn"; let cap ← argCap toks
+  let docs0 ← argDocs toks "fit"
+  let route ← (arg toks "ffit").bind fitRoute
   match checkParams nmin nmax lo hi with
   | some e => some (.error e)
   | none =>
-    let grams := docs.map (docGrams strJoiner nmin nmax)
-    let (a, b) := absBounds lo hi docs.length
-    let F := fit byWord grams a b stop cap
-    let corpus := readCorpus grams
-    let ftie := corpus.any fun e => floatTie lo docs.length e.2.2 || floatTie hi docs.length e.2.2
-    let ctie := match cap with
-      | none => false
-      | some _ =>
-        let A := (fit byWord grams a b stop none).vec
-        let dfw := fun (w : String) => ((corpus.find? fun e => e.1 == w).map (·.2.2)).getD 0
-        A.any fun bw => !F.vec.contains bw && F.vec.any fun aw => dfw aw == dfw bw
-    some (.ok ⟨nmin, nmax, F, !(ftie || ctie)⟩)
+    -- which token table the fit reads: decided by the model of the parameter object
+    let (docs, alt) ← match route with
+      | .reuse => do
+        let tokfn ← argBool toks "tokfn"
+        let alt ← argDocs toks "fitalt"
+        let real : TokSetting Nat Nat := if tokfn then .function 0 else .regex 2
+        -- params().tokenizer(Regex(DECOY)) … fit (check_ref) … clone … tokenizer(real) … fit (check_ref)
+        let p0 := ((⟨0, none, none⟩ : TokParams Nat Nat).tokenizer (.regex 1)).checkRef
+        let p := ((p0.tokenizer real).checkRef).checkRef
+        match p.used with
+        | some s => if s == real then some (docs0, false) else if s == .regex 1 then some (alt, true) else none
+        | none => none
+      | _ => some (docs0, false)
+    let n := docs.length
+    let bounds := fun k => absBoundsExact (f32ToRat lo) (f32ToRat hi) k
+    let F? : Option (Fitted String) := match route with
+      | .files => fitFiles strJoiner byWord nmin nmax bounds stop cap (docs.map some)
+      | _ => some (fitDocs strJoiner byWord nmin nmax bounds stop cap docs)
+    match F? with
+    | none => some (.error "EncodingError")
+    | some F =>
+      let grams := docs.map (docGrams strJoiner nmin nmax)
+      let corpus := readCorpus grams
+      let (a, b) := bounds n
+      -- executed assumption: outside the float-tie band the `f32` formula of the code
+      -- (`absBounds`) and the exact window decide every corpus entry alike
+      let (a32, b32) := absBounds lo hi n
+      let same := corpus.all fun e =>
+        floatTie lo n e.2.2 || floatTie hi n e.2.2 ||
+          ((decide (a ≤ e.2.2) && decide (e.2.2 ≤ b)) == (decide (a32 ≤ e.2.2) && decide (e.2.2 ≤ b32)))
+      if !same then none
+      else
+        let tf := tfTable grams
+        let mask := unpromised lo hi n (stop.getD []) (stopn.getD []) cap corpus (fun w => tf.getD w 0) a b
+        some (.ok ⟨nmin, nmax, F, mask, cap.isSome, alt⟩)
 
 def doFixed (toks : List String) : Option (Except String Req) := do
   let nmin ← argNat toks "nmin"; let nmax ← argNat toks "nmax"
   let lo ← argF32 toks "lo"; let hi ← argF32 toks "hi"
   let words ← argWords toks "vocab"
-  match checkParams nmin nmax lo hi with
+  let fv ← arg toks "fvoc"
+  if !vocForms.contains fv then none
+  else match checkParams nmin nmax lo hi with
   | some e => some (.error e)
-  | none => some (.ok ⟨nmin, nmax, fitVocabulary byWord words, true⟩)
+  | none => some (.ok ⟨nmin, nmax, fitVocabulary byWord words, some [], false, false⟩)
+
+/-- positions (in `vocabulary()`, which the model lists by word) of the compared columns -/
+def shownIdx (q : Req) : List Nat :=
+  match q.mask with
+  | none => List.range q.fitted.vec.length
+  | some m => (q.fitted.vec.zipIdx.filter fun p => !m.contains p.1).map (·.2)
+
+def pick {α} (d : α) (idx : List Nat) (row : List α) : List α := idx.map fun k => row.getD k d
+
+def showSize (q : Req) : String :=
+  if q.capped || q.mask == some [] then toString q.fitted.vocabulary.length else "-"
+
+def trDocs (toks : List String) (q : Req) : Option (List (List String)) :=
+  if q.alt then argDocs toks "tralt" else argDocs toks "tr"
+
+/-- the count matrix and the document frequencies through the body the calling form reaches -/
+def runTransform (toks : List String) (q : Req) : Option (List (List Nat) × List Nat) := do
+  let tr ← trDocs toks q
+  let files ← (arg toks "ftr").bind trRoute
+  if files then transformFiles strJoiner q.nmin q.nmax q.fitted (tr.map some)
+  else some (termAndDocFreqs q.fitted (tr.map (docGrams strJoiner q.nmin q.nmax)))
 
 /-- invalid settings are outside the property: only "the fit is refused" is compared, not the kind -/
 def respCount (toks : List String) (r : Except String Req) : Option String := do
-  let tr ← argDocs toks "tr"
-  argForm toks "ftr" trForms
   match r with
-  | .error _ => some "err"
+  | .error _ =>
+    let _ ← argDocs toks "tr"; let _ ← (arg toks "ftr").bind trRoute
+    some "err"
   | .ok q =>
-    let m := transform q.fitted (tr.map (docGrams strJoiner q.nmin q.nmax))
-    some s!"ok n={q.fitted.vocabulary.length} vocab={showVocab q.fitted.vec} counts={showList2 toString m} nnz={nnz m} {showMargin q.decided}"
+    let td ← runTransform toks q
+    let idx := shownIdx q
+    let rows := td.1.map (pick 0 idx)
+    let vocab := pick "" idx q.fitted.vec
+    let sp := rows.map sparseRow
+    let gets := sp.map fun s => (List.range idx.length).map fun k =>
+      match sparseGet s k with
+      | some c => toString c
+      | none => "N"
+    some s!"ok n={idx.length} size={showSize q} vocab={showVocab vocab} counts={showList2 toString rows} sp={showList2 (fun (p : Nat × Nat) => s!"{p.1}/{p.2}") sp} get={showList2 id gets} {showMargin q.mask.isSome}"
 
 def respTfIdf (toks : List String) (r : Except String Req) : Option String := do
-  let tr ← argDocs toks "tr"
   let meth ← argMethod toks
-  argForm toks "ftr" trForms
   match r with
-  | .error _ => some "err"
+  | .error _ =>
+    let _ ← argDocs toks "tr"; let _ ← (arg toks "ftr").bind trRoute
+    some "err"
   | .ok q =>
-    let grams := tr.map (docGrams strJoiner q.nmin q.nmax)
-    let m : List (List Float) := transformTfIdf meth q.fitted grams
-    some s!"ok n={q.fitted.vocabulary.length} vocab={showVocab q.fitted.vec} tfidf={showList2 (fun x => "~" ++ showF64c x) m} {showMargin q.decided}"
+    let td ← runTransform toks q
+    let m : List (List Float) := applyTfIdf meth td.1 td.2
+    let idx := shownIdx q
+    let rows := m.map (pick 0.0 idx)
+    let vocab := pick "" idx q.fitted.vec
+    let sp := (td.1.map (pick 0 idx)).zip rows |>.map fun (cr, fr) =>
+      (sparseRow cr).map fun p => (p.1, fr.getD p.1 0.0)
+    some s!"ok n={idx.length} size={showSize q} vocab={showVocab vocab} tfidf={showList2 (fun x => "~" ++ showF64c x) rows} sp={showList2 (fun (p : Nat × Float) => s!"{p.1}/~{showF64c p.2}") sp} {showMargin q.mask.isSome}"
 
 def handleNgrams (toks : List String) : Option String := do
   let nmin ← argNat toks "nmin"; let nmax ← argNat toks "nmax"
   let ws ← argWords toks "words"
   some ("ok " ++ showList2 showWord (ngramList strJoiner ws nmin nmax))
-
-def argBool (toks : List String) (key : String) : Option Bool := do
-  let s ← arg toks key
-  if s == "1" then some true else if s == "0" then some false else none
 
 /-- `transform_string` on one document: the two Unicode maps arrive as the finite tables the
 harness computed from first principles (`raw ↦ nfkd`, `raw ↦ low`, `nfkd ↦ lownfkd`) -/
@@ -149,9 +253,7 @@ def handleTString (toks : List String) : Option String := do
   let nf ← (arg toks "nfkd").bind parseWord
   let low ← (arg toks "low").bind parseWord
   let lownf ← (arg toks "lownfkd").bind parseWord
-  let nfkdF := fun (s : String) => if s == raw then nf else s
-  let lowerF := fun (s : String) => if s == raw then low else if s == nf then lownf else s
-  some ("ok " ++ showWord (transformString nfkdF lowerF norm lower raw))
+  some ("ok " ++ showWord (transformString (tableNfkd raw nf) (tableLower raw nf low lownf) norm lower raw))
 
 def handle (toks : List String) : String :=
   let r := match toks with
